@@ -18,6 +18,15 @@ def run(rep, tier, seed, replay=None):
         rep.add_broken('build', 'harness', out[-1500:])
         return
     engine_correspondence(rep, binp, seed + 16, 200 if tier == 'quick' else 2000)
+    # ---- the EXECUTABLE cost model (wave 6c): the engine with the real cache (Model/EngineReal.v `memo_real`, block algorithm + leaf
+    # kernel) predicts every node's layout AND, per node and pass, the numbers of compute_cached_layout calls, cache hits and
+    # measure-function calls of TaffyTree::compute_layout_with_measure without the exact-key hook: random trees + deterministic block
+    # chains of depth 1..16 over a measured leaf, bit-exact and count-exact
+    from . import _blockreal
+    esc = bool([c for c in changed if c.startswith('gen_cache:') or 'compute_cached_layout' in c or 'compute_child_layout' in c
+                or 'compute_hidden_layout' in c or 'compute_root_layout' in c or 'block' in c.lower()])
+    _blockreal.real_tree_k(rep, 'C16', binp, seed + 1616, 3000 if tier != 'quick' or esc else 300)
+    _blockreal.real_chain_k(rep, 'C16', binp)
     base = json.load(open(os.path.join(ROOT, 'corpus', 'C16-typical-baseline.json')))['failing']
     rc, out = vh(binp, ['c16', 'typical', 0, 0, NTYP], timeout=600)
     if 'DONE' not in out:
@@ -65,7 +74,10 @@ def run(rep, tier, seed, replay=None):
     rep.cov['evaluations'] = rep.cov.get('evaluations', 0) + NTYP + n
     rep.cov['explanation'] = ('Accounting identities (a hit evaluates nothing; an evaluated query is a hit afterwards; an exact memo never displaces a '
                               'size entry) are machine-checked for the engine skeleton. The numeric bound depends on the real algorithms\' query '
-                              'sequences and the 9 lossy slots and is only explored: %d deterministic chains (depths 9/18/36/63, 9 typical container '
+                              'sequences and the 9 lossy slots; for trees of block containers and leaves it is now the count of an executable '
+                              'model (engine + real cache, Model/EngineReal.v) compared count for count on every run (blocktree_real_cache, '
+                              'block_chains_real_cache; C16_real_miss_count, C16_real_chain_bound_partial); for flex / grid trees it is only '
+                              'explored: %d deterministic chains (depths 9/18/36/63, 9 typical container '
                               'styles in period-3 mixes, 3 leaves, 3 available spaces) against the recorded baseline, and %d random fresh trees '
                               'against 64 x node count.' % (NTYP, n))
     rep.cov['rule'] = 'distinct = distinct chain/tree inputs; non-trivial = every case lays out a tree with a measured leaf and counts measure calls'
